@@ -88,7 +88,8 @@ class C03(Check):
         from flosim.model import Model
         from flosim.cosim import norm_model, first_difference
         capticks = plan.get("ticks", 20) + 12
-        model = Model(plan["program"], P, env_table=et, max_ticks=capticks + 50)
+        from flosim.cosim import impl_sweep_order
+        model = Model(plan["program"], P, env_table=et, max_ticks=capticks + 50, sweep_order=impl_sweep_order(base.trace))
         model.cap = capticks * P - P / 4
         try:
             model.run()
